@@ -283,8 +283,12 @@ func Run(r *ev.Run) {
 	{
 		key := echx.NewKey("c05-same", 42, echx.AllSuites, "plain.example.org")
 		for vi, sv := range [][]uint16{nil, {0x0303}, {0x0303, 0x0302, 0x0301}, {0x7a7a, 0x0303}, {0x0303, 0x0a0a}} { // GREASE values are not versions
-			for _, pos := range []int{0, 2, 99} {
+			// round 13: legacy_version is not an offer - without 0x0304 in supported_versions the hello offers TLS 1.2 or less "even if
+			// ClientHello.legacy_version is 0x0304 or later" (RFC 8446 4.2.1)
+			for _, lvpos := range [][2]int{{0x0303, 0}, {0x0303, 2}, {0x0303, 99}, {0x0301, 2}, {0x0304, 0}, {0x0304, 2}, {0x0304, 99}, {0x0305, 2}, {0x03ff, 2}, {0x0400, 2}, {0x7f1c, 2}} {
+				lv, pos := uint16(lvpos[0]), lvpos[1]
 				outer, idx := echx.StdOuter("plain.example.org", tlsref.DetBytes("sid", 32), pos)
+				outer.Version = lv
 				outer.Exts = slices.DeleteFunc(outer.Exts, func(e tlsref.Ext) bool { return e.Type == tlsref.ExtSupportedVersions })
 				idx = slices.IndexFunc(outer.Exts, func(e tlsref.Ext) bool { return e.Type == tlsref.ExtECH })
 				if sv != nil {
@@ -294,7 +298,7 @@ func Run(r *ev.Run) {
 					InnerBase: echx.StdInnerBase(), EphLabel: "c05"}.Build()
 				stream := b.Outer.Record()
 				res := echx.Feed(stream, ks[2])
-				replay := map[string]any{"case": fmt.Sprintf("authentic ECH, outer supported_versions variant %d, ech position %d", vi, pos), "stream": echx.Hex(stream)}
+				replay := map[string]any{"case": fmt.Sprintf("authentic ECH, outer legacy_version %#04x, supported_versions variant %d, ech position %d", lv, vi, pos), "stream": echx.Hex(stream)}
 				switch {
 				case res.Panic != nil:
 					r.Violation("panic:no-tls13-authentic-ech", fmt.Sprint(res.Panic), replay)
